@@ -596,8 +596,15 @@ func (in *Interp) next(fr *frame, instr *ssa.Next, it *MapIter) Value {
 	if mt != nil {
 		kz, vz = in.zero(mt.KT), in.zero(mt.VT)
 	} else {
+		// (a component the loop does not use has the invalid type: nothing to produce for it)
 		tt := instr.Type().(*types.Tuple)
-		kz, vz = in.zero(tt.At(1).Type()), in.zero(tt.At(2).Type())
+		zeroOf := func(t types.Type) Value {
+			if b, ok := t.(*types.Basic); ok && b.Kind() == types.Invalid {
+				return nil
+			}
+			return in.zero(t)
+		}
+		kz, vz = zeroOf(tt.At(1).Type()), zeroOf(tt.At(2).Type())
 	}
 	return Tuple{tb.False, kz, vz}
 }
